@@ -20,6 +20,11 @@ const CALLS: &[&str] = &[
     "cd 0", "cd 2", "cd 8", "mfb 0", "mfb 59", "mfb 60", "cs 0", "cs 5",
 ];
 const STARTS: &[&str] = &["p2p", "sync", "spec"];
+/// every session that starts is driven this many ticks (sessions with only local players and sync
+/// tests advance one frame per tick: more than one wrap of the input ring)
+const SMOKE_TICKS: usize = 140;
+/// option calls (everything but the player set-up), for the structured stage
+const OPTIONS: &[&str] = &["mp 0", "mp 1", "mp 2", "mp 8", "delay 2", "delay 7", "sparse 1", "sparse 0", "dd 0", "dd 3", "fps 30", "cd 0", "cd 1", "cd 2", "mfb 59", "cs 5"];
 
 fn apply(b: SessionBuilder<CfgR>, call: &str) -> Result<SessionBuilder<CfgR>, ()> {
     let w: Vec<&str> = call.split_whitespace().collect();
@@ -64,9 +69,9 @@ fn run_case(calls: &[&str], start: &str) -> String {
         match start {
             "p2p" => match b.start_p2p_session(NullSocket) {
                 Ok(mut s) => {
-                    // smoke: poll, give inputs, advance a few times
+                    // smoke: poll, give inputs, advance past one wrap of the 128-slot input rings
                     let smoke = catch_unwind(AssertUnwindSafe(|| {
-                        for _ in 0..3 {
+                        for _ in 0..SMOKE_TICKS {
                             s.poll_remote_clients();
                             for h in &locals { let _ = s.add_local_input(*h, 1); }
                             let mut g = Game::new();
@@ -94,7 +99,7 @@ fn run_case(calls: &[&str], start: &str) -> String {
                     let np = s.num_players();
                     let smoke = catch_unwind(AssertUnwindSafe(|| {
                         let mut g = Game::new();
-                        for _ in 0..6 {
+                        for _ in 0..SMOKE_TICKS {
                             for h in 0..np { let _ = s.add_local_input(h, 1); }
                             if let Ok(reqs) = s.advance_frame() {
                                 for r in reqs {
@@ -158,6 +163,25 @@ fn main() {
                 emit(&calls, s);
             }
         }
+    }
+    // structured: a complete all-local player set-up with a few option calls before, between and
+    // after it, in random order (the order of builder calls must not matter)
+    let mut rng = Rng(seed ^ 0x5EED_B01D);
+    for _ in 0..(nrand / 4).max(200) {
+        let np = 1 + rng.below(3) as usize;
+        let np_call = ["np 1", "np 2", "np 3"][np - 1];
+        let mut calls: Vec<&str> = vec![np_call];
+        for h in 0..np {
+            calls.push(["ap L 0", "ap L 1", "ap L 2"][h]);
+        }
+        for _ in 0..rng.below(5) {
+            let o = *rng.pick(OPTIONS);
+            // np must precede the add_player calls it validates; everything else goes anywhere
+            let at = 1 + rng.below(calls.len() as u64) as usize;
+            if rng.chance(1, 3) { calls.insert(0, o) } else { calls.insert(at, o) }
+        }
+        let s = if rng.chance(2, 3) { "p2p" } else { "sync" };
+        emit(&calls, s);
     }
     // random longer sequences biased towards completing a valid configuration
     let mut rng = Rng(seed);
